@@ -1,8 +1,219 @@
-//! C16 observations (see props/c16.py for the consumer).
+//! C16 observations.  Modes (args[0]):
+//!   names                      enum tables: printed forms, polarization tables, inverse, parse of the printed forms
+//!   parse                      stdin lines `pm\t<s>` | `pol\t<s>` | `crystal\t<s>`: result of the implementation's parser
+//!   pmenum <alphabet> <n>      stdin: one prefix per line; for each, the result codes of PMType::from_str on
+//!                              prefix ++ w for every w over the alphabet with |w| <= n (enumeration order of Model/Names.v)
+//!   cfg <seed> <n>             valid configuration stream: shadow construction, real conversion, config -> setup -> config
+//!                              -> setup -> config round trips, JSON round trips
+//! Consumer: props/c16.py.
 #![allow(unused_imports, dead_code)]
+#[path = "cfg_common.rs"]
+pub mod cfgc;
 use crate::common::*;
-use serde_json::json;
+use cfgc::*;
+use serde_json::{json, Value};
+use spdcalc::*;
+use std::io::BufRead;
+use std::str::FromStr;
 
-pub fn run(_args: &[String]) {
-  emit(json!({"kind": "not_implemented", "property": "C16"}));
+fn pm_code(s: &str) -> char {
+  match PMType::from_str(s) {
+    Ok(PMType::Type0_o_oo) => '0',
+    Ok(PMType::Type0_e_ee) => '1',
+    Ok(PMType::Type1_e_oo) => '2',
+    Ok(PMType::Type2_e_eo) => '3',
+    Ok(PMType::Type2_e_oe) => '4',
+    Err(_) => '-',
+  }
+}
+
+fn enumerate(alphabet: &[char], n: usize, cur: &mut String, out: &mut String) {
+  out.push(pm_code(cur));
+  if n == 0 {
+    return;
+  }
+  for c in alphabet {
+    cur.push(*c);
+    enumerate(alphabet, n - 1, cur, out);
+    cur.pop();
+  }
+}
+
+pub fn run(args: &[String]) {
+  install_hook();
+  let mode = args.first().map(|s| s.as_str()).unwrap_or("names");
+  match mode {
+    "names" => names(),
+    "parse" => parse(),
+    "pmenum" => {
+      let alphabet: Vec<char> = args.get(1).map(|s| s.chars().collect()).unwrap_or_default();
+      let n = arg_u64(args, 2, 3) as usize;
+      let stdin = std::io::stdin();
+      for line in stdin.lock().lines() {
+        let prefix = line.unwrap_or_default();
+        let prefix = prefix.trim_end_matches('\n').to_string();
+        let mut cur = prefix.clone();
+        let mut out = String::new();
+        enumerate(&alphabet, n, &mut cur, &mut out);
+        emit(json!({"kind": "pmenum", "prefix": prefix, "n": n, "codes": out}));
+      }
+    }
+    "cfg" => cfg_stream(arg_u64(args, 1, 1), arg_u64(args, 2, 50) as usize, None),
+    "replay" => {
+      let mut text = String::new();
+      use std::io::Read;
+      let _ = std::io::stdin().read_to_string(&mut text);
+      match serde_json::from_str::<Value>(&text) {
+        Ok(j) => cfg_stream(0, 0, Some(j)),
+        Err(e) => emit(json!({"kind": "error", "msg": e.to_string()})),
+      }
+    }
+    _ => emit(json!({"kind": "error", "msg": "unknown mode"})),
+  }
+}
+
+fn names() {
+  let all = [PMType::Type0_o_oo, PMType::Type0_e_ee, PMType::Type1_e_oo, PMType::Type2_e_eo, PMType::Type2_e_oe];
+  for t in all {
+    let disp = t.to_string();
+    emit(json!({
+      "kind": "pm", "variant": format!("{:?}", t), "to_str": t.to_str(), "display": disp,
+      "pump": pol_s(t.pump_polarization()), "signal": pol_s(t.signal_polarization()), "idler": pol_s(t.idler_polarization()),
+      "inverse": format!("{:?}", t.inverse()),
+      "from_display": PMType::from_str(&disp).map(|v| format!("{:?}", v)).unwrap_or("Err".into()),
+      "from_to_str": PMType::from_str(t.to_str()).map(|v| format!("{:?}", v)).unwrap_or("Err".into()),
+      "json": serde_json::to_string(&t).unwrap_or_default(),
+    }));
+  }
+  for p in [PolarizationType::Ordinary, PolarizationType::Extraordinary] {
+    let disp = p.to_string();
+    emit(json!({"kind": "pol", "variant": format!("{:?}", p), "display": disp,
+      "from_display": PolarizationType::from_str(&disp).map(|v| format!("{:?}", v)).unwrap_or("Err".into())}));
+  }
+  for m in CrystalType::get_all_meta() {
+    let r = CrystalType::from_string(m.id);
+    emit(json!({"kind": "crystal", "id": m.id,
+      "parsed": match &r { Ok(CrystalType::Expr(_)) => "Expr".to_string(), Ok(c) => c.to_string(), Err(_) => "Err".to_string() },
+      "from_str": CrystalType::from_str(m.id).map(|c| c.to_string()).unwrap_or("Err".into()),
+      "json": r.as_ref().ok().map(|c| serde_json::to_string(c).unwrap_or_default()),
+      "json_back": r.as_ref().ok().and_then(|c| serde_json::to_string(c).ok())
+          .and_then(|js| serde_json::from_str::<CrystalType>(&js).ok()).map(|c| c.to_string()),
+    }));
+  }
+}
+
+fn parse() {
+  let stdin = std::io::stdin();
+  for line in stdin.lock().lines() {
+    let line = line.unwrap_or_default();
+    let (k, s) = match line.split_once('\t') {
+      Some(x) => x,
+      None => continue,
+    };
+    let r = match k {
+      "pm" => PMType::from_str(s).map(|v| format!("{:?}", v)).unwrap_or("Err".into()),
+      "pol" => PolarizationType::from_str(s).map(|v| format!("{:?}", v)).unwrap_or("Err".into()),
+      "crystal" => match CrystalType::from_string(s) {
+        Ok(CrystalType::Expr(_)) => "Expr".to_string(),
+        Ok(c) => c.to_string(),
+        Err(_) => "Err".to_string(),
+      },
+      // the serde path of a configuration: pm_type is parsed with DisplayFromStr
+      "pmjson" => {
+        let j = json!({"kind": "KTP", "pm_type": s, "length_um": 1000, "temperature_c": 20});
+        serde_json::from_value::<CrystalConfig>(j).map(|c| format!("{:?}", c.pm_type)).unwrap_or("Err".into())
+      }
+      _ => "?".to_string(),
+    };
+    emit(json!({"kind": "parse", "what": k, "s": s, "r": r}));
+  }
+}
+
+/// config -> setup -> config -> setup -> config, with exact dumps
+pub fn roundtrip(s: &SPDC) -> Value {
+  let r = guarded_loc(|| {
+    let c1 = s.clone().as_config();
+    let t1 = serde_json::to_string(&c1).unwrap_or_default();
+    let back: Result<SPDCConfig, _> = serde_json::from_str(&t1);
+    let json_rt = match &back { Ok(b) => *b == c1, Err(_) => false };
+    let o2 = outcome(|| c1.clone().try_as_spdc());
+    let (s2j, c2j, c2_eq, t2) = match &o2.3 {
+      Some(s2) => {
+        let c2 = s2.clone().as_config();
+        (spdc_json(s2), cfg_json(&c2), c2 == c1, serde_json::to_string(&c2).unwrap_or_default())
+      }
+      None => (Value::Null, Value::Null, false, String::new()),
+    };
+    json!({"cfg1": cfg_json(&c1), "json1": t1, "json1_roundtrip": json_rt,
+           "second": {"class": o2.0, "msg": o2.1, "loc": o2.2, "setup": s2j, "cfg2": c2j, "cfg2_equals_cfg1": c2_eq, "json2": t2}})
+  });
+  match r {
+    Ok(v) => v,
+    Err((m, l)) => json!({"panic": m, "loc": l}),
+  }
+}
+
+fn targeted() -> Vec<(&'static str, Value)> {
+  // asymmetric values everywhere (no two fields equal), angles near the wrap-around, every apodization kind
+  let base = |sig_phi: f64, sig_theta: f64, pp: Value, idler: Value| {
+    json!({
+      "crystal": {"kind": "BBO_1", "pm_type": "Type1_e_oo", "phi_deg": 13.70001, "theta_deg": 28.65432, "length_um": 1234.5678, "temperature_c": 37.25},
+      "pump": {"wavelength_nm": 405.12345, "waist_um": 87.65432, "bandwidth_nm": 0.123456, "average_power_mw": 12.3456, "spectrum_threshold": 0.0123},
+      "signal": {"wavelength_nm": 780.54321, "phi_deg": sig_phi, "theta_deg": sig_theta, "waist_um": 55.44332, "waist_position_um": -321.98765},
+      "idler": idler, "periodic_poling": pp, "deff_pm_per_volt": 2.34567
+    })
+  };
+  let idl = json!({"wavelength_nm": 842.1357, "phi_deg": 211.12121, "theta_deg": 2.71828, "waist_um": 66.77889, "waist_position_um": 456.78901});
+  vec![
+    ("asymmetric:idler_auto", base(31.41592, 1.23456, Value::Null, json!("auto"))),
+    ("asymmetric:idler_explicit", base(31.41592, 1.23456, Value::Null, idl.clone())),
+    ("asymmetric:pp_explicit", base(31.41592, 1.23456, json!({"poling_period_um": 9.87654, "apodization": {"kind": "Gaussian", "parameter": {"fwhm_um": 777.123}}}), idl.clone())),
+    ("asymmetric:pp_negative", base(31.41592, 1.23456, json!({"poling_period_um": -9.87654, "apodization": {"kind": "Interpolate", "parameter": [0.1, 0.5, 1.0, 0.25]}}), json!("auto"))),
+    ("wrap:phi_near_360", base(359.99996, 1.5, Value::Null, json!("auto"))),
+    ("wrap:phi_negative", base(-0.00004, 1.5, Value::Null, json!("auto"))),
+    ("wrap:theta_negative", base(10.0, -3.25, Value::Null, json!("auto"))),
+    ("wrap:theta_near_minus_180", base(10.0, -179.99996, Value::Null, idl.clone())),
+    ("wrap:theta_370", base(10.0, 362.5, Value::Null, json!("auto"))),
+  ]
+}
+
+fn cfg_stream(seed: u64, n: usize, only: Option<Value>) {
+  let mut rng = Rng::new(seed);
+  emit(json!({"kind": "units", "u": units_json()}));
+  let mut id = 0usize;
+  let mut all: Vec<(usize, Vec<String>, Value)> = vec![];
+  if let Some(j) = only {
+    all.push((999, vec!["replay".to_string()], j));
+  } else {
+    for (name, j) in targeted() {
+      all.push((200, vec![name.to_string()], j));
+    }
+  }
+  for _ in 0..n {
+    let mut tags = vec![];
+    let j = gen_config(&mut rng, 0, &mut tags);
+    all.push((0, tags, j));
+  }
+  for (mal, tags, j) in all {
+    let text = serde_json::to_string(&j).unwrap_or_default();
+    let mut o = crate::c17::observe_config(id, mal, tags, j.clone(), false);
+    id += 1;
+    if o["parse"] == "ok" {
+      // JSON round trip of the parsed configuration itself
+      if let Ok(cfg) = serde_json::from_value::<SPDCConfig>(j.clone()) {
+        let t = serde_json::to_string(&cfg).unwrap_or_default();
+        let back: Result<SPDCConfig, _> = serde_json::from_str(&t);
+        o["cfg_json_roundtrip"] = json!(match &back { Ok(b) => *b == cfg, Err(_) => false });
+        o["cfg_json_text"] = json!(t);
+        if let Ok(Ok(s)) = guarded_loc(|| cfg.clone().try_as_spdc()) {
+          o["roundtrip"] = roundtrip(&s);
+          // serde of the setup itself (SPDC serialises through its configuration)
+          let st = serde_json::to_string(&s).unwrap_or_default();
+          o["spdc_json_equals_config_json"] = json!(st == o["roundtrip"]["json1"].as_str().unwrap_or(""));
+        }
+      }
+    }
+    o["text"] = json!(text);
+    emit(o);
+  }
 }
